@@ -50,6 +50,10 @@ def scenario(draw, tier="quick", fault=False):
         feats = {"remove": 0, "suspend": 1, "inplay": 2, "books": 4, "trades": 2, "close": draw(st.integers(0, 9)) > 0,
                  "max_dt_ms": 1000 if grid else 20_000}
         steps, states = draw(gen.timeline(spec, n, feats))
+        if "seconds_to_start" in lk and draw(st.booleans()):
+            # the scheduled start time changes while the market is open
+            pos = draw(st.integers(0, len(steps)))
+            steps.insert(pos, {"dt": 1000, "k": "retime", "offset_ms": draw(st.sampled_from([2_000, 8_000, 15_000, 30_000, 60_000, 3_600_000]))})
         if grid:
             for s in steps:
                 s["dt"] = 1000
@@ -70,7 +74,6 @@ def scenario(draw, tier="quick", fault=False):
 
 def expected_delivery(spec, updates, lk):
     """independent filter oracle -> list of update indices that must be delivered"""
-    mt = spec["start_pt"] + spec["market_time_offset_ms"]
     inplay_start = None
     prev_inplay = False
     out = []
@@ -84,7 +87,7 @@ def expected_delivery(spec, updates, lk):
                 if not u.inplay:
                     ok = False
             elif lk.get("seconds_to_start"):
-                if (mt - u.pt) / 1000.0 > lk["seconds_to_start"]:
+                if (u.market_time - u.pt) / 1000.0 > lk["seconds_to_start"]:  # start time in force at this update
                     ok = False
             if lk.get("inplay") is False and u.inplay:
                 ok = False
